@@ -61,6 +61,20 @@ Section Real.
   Qed.
 End Real.
 
+Lemma label_schedule_independent_real :
+  forall (H : list N -> list N), (forall x, bytes_ok (H x)) ->
+  forall (hist : list cblock) (g : store ckey cval) (gleaves : list key) (gtotals : list N),
+  genesis_ok ckey cval (cleaf H) g gleaves -> leaves_distinct ckey cval ckey_dec (cleaf H) hist g ->
+  kv_old_ok ckey cval ckey_dec cclass hist g ->
+  forall (P1 P2 : params) (ops1 ops2 : list cop) (R : N) (l1 l2 : list N),
+  p_interval P1 <> 0 -> p_interval P2 <> 0 -> p_lookback P1 = p_lookback P2 -> p_nextras P1 = p_nextras P2 ->
+  In (R, l1) (c_labels (crun ckey_dec cval_eqb cclass (cleaf H) H P1 hist (init_state g gleaves gtotals) ops1)) ->
+  In (R, l2) (c_labels (crun ckey_dec cval_eqb cclass (cleaf H) H P2 hist (init_state g gleaves gtotals) ops2)) ->
+  l1 = l2.
+Proof.
+  intros H HB. exact (label_schedule_independent ckey cval ckey_dec cval_eqb cval_eqb_eq cclass (cleaf H) H 36 (cleaf_ok H HB)).
+Qed.
+
 (* ---------- (ii) non-vacuity ---------- *)
 Definition xleaf (k v : bool) : key := [if k then 1 else 0; if v then 1 else 0].
 Definition xclass (k : bool) : N := if k then 2 else 0.       (* key true: a KV key; key false: an account *)
